@@ -528,6 +528,20 @@ func (m *Machine) Apply(a *Action) (Outcome, error) {
 	case "regOperator":
 		who := m.Ident(a.Ident)
 		info := &operatortypes.OperatorInfo{EarningsAddr: who.Bech32(), ApproveAddr: who.Bech32(), OperatorMetaInfo: "probe", Commission: stakingtypes.NewCommission(sdk.ZeroDec(), sdk.OneDec(), sdk.OneDec())}
+		// a.N selects the client-chain earnings addresses the operator registers with
+		hexAddr := who.Addr.Hex()
+		switch a.N {
+		case 1:
+			info.ClientChainEarningsAddr = &operatortypes.ClientChainEarningAddrList{EarningInfoList: []*operatortypes.ClientChainEarningAddrInfo{{LzClientChainID: 101, ClientChainEarningAddr: hexAddr}}}
+		case 2:
+			info.ClientChainEarningsAddr = &operatortypes.ClientChainEarningAddrList{EarningInfoList: []*operatortypes.ClientChainEarningAddrInfo{{LzClientChainID: 101, ClientChainEarningAddr: "not-an-address"}}}
+		case 3:
+			info.ClientChainEarningsAddr = &operatortypes.ClientChainEarningAddrList{EarningInfoList: []*operatortypes.ClientChainEarningAddrInfo{{LzClientChainID: 101, ClientChainEarningAddr: hexAddr}, {LzClientChainID: 101, ClientChainEarningAddr: hexAddr}}}
+		case 4:
+			info.ClientChainEarningsAddr = &operatortypes.ClientChainEarningAddrList{EarningInfoList: []*operatortypes.ClientChainEarningAddrInfo{{LzClientChainID: 999, ClientChainEarningAddr: hexAddr}}}
+		case 5:
+			info.ClientChainEarningsAddr = &operatortypes.ClientChainEarningAddrList{EarningInfoList: []*operatortypes.ClientChainEarningAddrInfo{{LzClientChainID: 102, ClientChainEarningAddr: hexAddr + "5152535455565758595a5b5c"}}}
+		}
 		return m.cosmosAs(a, who, &operatortypes.RegisterOperatorReq{FromAddress: who.Bech32(), Info: info})
 	case "regChain":
 		// (a.Key > 0: an address length other than 20 bytes, e.g. 32 for a non-EVM client chain)
